@@ -266,8 +266,13 @@ func (in *Interp) execBlock(b *Block, sc *scope, f *frame) (signal, []Value) {
 			}
 			if found <= i {
 				sc = scopes[found]
+			} else {
+				// forward jump within the block: no local may be skipped into scope, so the skipped
+				// statements start in the scope of the goto (needed if a later goto jumps back to them)
+				for k := i + 1; k <= found; k++ {
+					scopes[k] = sc
+				}
 			}
-			// forward jump within the block: the generator guarantees no local is skipped into scope
 			i = found
 			continue
 		}
@@ -543,6 +548,10 @@ func (in *Interp) execRepeatBody(b *Block, sc *scope, f *frame) (signal, []Value
 			}
 			if found <= i {
 				sc = scopes[found]
+			} else {
+				for k := i + 1; k <= found; k++ {
+					scopes[k] = sc
+				}
 			}
 			i = found
 			continue
